@@ -223,6 +223,9 @@ theorem sh_headToks (k l : Nat) (f : FieldD) (w : TyW) : sh k (headToks f w l) =
   unfold headToks
   simp only [sh_append, sh_cons, sh_T, sh_labelToks, sh_wToks, sh_numToks, sh_nil]
 
+/-- the scanner finds only tokens on this line (no `//` comment; a `/` inside a string literal is fine) -/
+def TokOk (s : String) : Prop := ∀ r ∈ lexL s.toList 0, ∃ t ln, r = Raw.tok t ln
+
 /-- the lines of a field without comments -/
 def fieldLines (n : Nat) (f : FieldD) : List String := fieldStyle n f.head (formatInt f.number) f.popts ""
 
@@ -254,7 +257,7 @@ structure OptField (f : FieldD) : Prop where
   lab : f.label = "" ∨ f.label = "repeated " ∨ f.label = "optional "
   name : IsIdent f.name
   nonempty : f.popts ≠ []
-  noch : ∀ l ∈ fieldLines 0 f, ∀ c ∈ l.toList, c ≠ '\n' ∧ c ≠ '/'
+  noch : ∀ l ∈ fieldLines 0 f, (∀ c ∈ l.toList, c ≠ '\n') ∧ TokOk l
   read : ∃ (w : TyW) (raws : List RawOpt) (e : Nat) (c : Cm), w.ok f.label ∧ f.type = w.str ∧
     fieldToks0 f = headToks f w 0 ++ rdBody f ∧
     bracketOpts ((rdBody f).length + 1) (rdBody f) = Option.some (raws, [⟨.sym ';', e, c⟩]) ∧
@@ -331,7 +334,7 @@ def rdBlockOpts (os : List SOpt) (s : Nat) : List SOpt := (mkOpts 0 (optRaws0 os
 hypothesis (decidable: `Cover.blockOptsB`) -/
 structure BlockOpts (os : List SOpt) : Prop where
   unl : ∀ o ∈ os, o.hasLoc = false
-  noch : ∀ l ∈ optLines0 os, ∀ c ∈ l.toList, c ≠ '\n' ∧ c ≠ '/'
+  noch : ∀ l ∈ optLines0 os, (∀ c ∈ l.toList, c ≠ '\n') ∧ TokOk l
   whole : (optChunks os).flatten = optToks0 os
   chunks : ChunksOk (optChunks os)
   ok : optsOk os (mkOpts 0 (optRaws0 os))
